@@ -201,10 +201,9 @@ def run(ctx: Ctx) -> None:
             return hashlib.sha1(f"{ctx.seed}/{key}".encode()).hexdigest()
 
         def shape(b):
-            return (b["ip"]["ns"], b["ip"]["sut1"],
-                    tuple((a["op"], a["k"], a["a"], a["b"]) for a in b["hist"]))
-        budget = 1800
-        pick = {k for k in chosen if is_bad(seqs[k]["pred"])}
+            return (b["ip"]["mode"], tuple((a["op"], a["k"]) for a in b["hist"]))
+        budget = 4200
+        pick = {k for k in chosen if is_bad(seqs[k]["pred"]) or seqs[k]["ip"]["mode"] not in ("T", "S")}
         by_shape: dict = {}
         for k in sorted(chosen, key=h):
             by_shape.setdefault(shape(seqs[k]), k)
@@ -267,18 +266,33 @@ def run(ctx: Ctx) -> None:
     payload = [{"w0": t["w0"], "ev": t["ev"]} for t in traces]
     verdicts = ctx.validate("CacheTrace", payload, chunk=max(500, -(-len(payload) // 3)))
     confirmed = 0
+    drifting = []
     for idx, bad in sorted(verdicts.items()):
         tr = traces[idx]
         for clause, step in bad:
             if clause == "ModelFollows":
-                e = tr["ev"][step - 1] if 0 < step <= len(tr["ev"]) else {}
-                ctx.drift.append(f"trace {idx} step {step}: design model does not explain {e.get('op')} "
-                                 f"{e.get('k', '')} (behaviour {behs[idx]['hist'][:step]})"[:400])
+                drifting.append((idx, step))
                 continue
             sig, detail = signature(tr, clause, step)
-            ctx.bad(clause, sig, detail, trace={"w0": tr["w0"], "w0full": tr["w0full"], "ev": tr["ev"][:step]}, behaviour=behs[idx])
+            ctx.bad(clause, sig, detail, trace={"w0": tr["w0"], "w0full": tr["w0full"], "ev": tr["ev"][:step]},
+                    behaviour=behs[idx])
         if idx in pred_bad and any(c in ("NeverStale", "QueryTotal") for c, _ in bad):
             confirmed += 1
+    if drifting:
+        # the model of the code as it is does not explain these traces; does the intended design
+        # (known defects repaired) explain them?  Only what neither explains is reported as drift.
+        again = ctx.validate("CacheTrace", [payload[i] for i, _ in drifting], cfg="CacheTrace_repaired.cfg",
+                             chunk=max(500, -(-len(drifting) // 3)))
+        explained = 0
+        for n, (idx, step) in enumerate(drifting):
+            if any(c == "ModelFollows" for c, _ in again.get(n, [])):
+                e = traces[idx]["ev"][step - 1] if 0 < step <= len(traces[idx]["ev"]) else {}
+                ctx.drift.append(f"trace {idx} step {step}: neither the model of the code as it is nor the "
+                                 f"repaired design explains {e.get('op')} {e.get('k', '')} "
+                                 f"(calls {[(a['op'], a['a'], a['k'], a['f']) for a in behs[idx]['hist'][:step]]})"[:500])
+            else:
+                explained += 1
+        ctx.notes["traces_explained_only_by_repaired_design"] = explained
     ctx.notes["model_predicted_defect_replays"] = len(pred_bad)
     ctx.notes["model_predicted_defect_replays_confirmed_on_code"] = confirmed
     ctx.notes["drift_traces"] = len(ctx.drift)
